@@ -148,7 +148,7 @@ def program(draw, tier):
     stmts, edges = draw(loops(start, end, big))
     nested = draw(st.integers(0, 3)) == 0
     info = [{"fb": e[0], "prod": e[1], "passive": e[2], "init": e[3], "schema": e[4], "rp": f"rp{j}", "rf": f"rf{j}"} for j, e in enumerate(edges)]
-    mapped = (not nested) and draw(st.integers(0, 4)) == 0
+    mapped = (not nested) and draw(st.sampled_from([0, 1, 2, 3, 4, 5])) == 0
     if mapped:
         # the whole loop lives inside EVERY child of a map_ over two keys that are there from the start; the keys' elements tick
         # at other times than the loops write, so a child waiting for its delivery cycle sees its sibling being woken
